@@ -196,8 +196,17 @@ func (g *GcsEmu) handleGcsCompose(ctx context.Context, baseUrl HttpBaseUrl, w ht
 		conds:    conds,
 	}
 
+	if req.Destination == nil {
+		// the destination metadata is optional: compose into an object with default metadata
+		req.Destination = &storage.Object{}
+	}
+
 	srcs := make([]composeObj, len(req.SourceObjects))
 	for i, sObj := range req.SourceObjects {
+		if sObj == nil {
+			g.gapiError(w, http.StatusBadRequest, "bad compose request: null source object")
+			return
+		}
 		var generationMatch int64
 		if sObj.ObjectPreconditions != nil {
 			generationMatch = sObj.ObjectPreconditions.IfGenerationMatch
